@@ -188,6 +188,9 @@ func (m farmMod) Apply(x *X, st Step) string {
 		}
 		return kind
 	case "create":
+		if len(m.poolIDs(a)) >= 9 {
+			return "rej" // pool ids farm-N with N < 10 are the modelled universe (byte order = numeric order)
+		}
 		var lpts []string
 		for _, p := range a.Coinswap.GetAllPools(a.Ctx) {
 			lpts = append(lpts, p.LptDenom)
